@@ -445,15 +445,15 @@ def run_sense_table(shard, ctx, env, rng):
     for asc, ascq in pairs:
         for key in shard["keys"]:
             for rc in (0x70, 0x72):
-                raw = bool((asc + ascq + key) % 5 == 0)
-                sense = ref.build(rc, 0, key, asc, ascq, 18 if rc == 0x70 else 8)
-                env.plan = [(2, sense)]
-                cmd = fresh_cmd(env, rng, "tur")
-                outcome, exc = execute(env, cmd, raw)
-                ctx.case((t, "sense-table", asc, ascq, key, rc, raw), True)
-                ctx.count("binding_calls")
-                ctx.count("assigned_codes_injected")
-                judge_call(ctx, env, "sense_table", 2, sense, raw, outcome, exc, cmd, {"key": key, "asc": asc, "ascq": ascq, "response_code": rc})
+                for raw in (False, True) if (asc + ascq + key) % 5 == 0 else (False,):
+                    sense = ref.build(rc, 0, key, asc, ascq, 18 if rc == 0x70 else 8)
+                    env.plan = [(2, sense)]
+                    cmd = fresh_cmd(env, rng, "tur")
+                    outcome, exc = execute(env, cmd, raw)
+                    ctx.case((t, "sense-table", asc, ascq, key, rc, raw), True)
+                    ctx.count("binding_calls")
+                    ctx.count("assigned_codes_injected")
+                    judge_call(ctx, env, "sense_table", 2, sense, raw, outcome, exc, cmd, {"key": key, "asc": asc, "ascq": ascq, "response_code": rc})
 
 
 def run_facade_sessions(shard, ctx, env, rng):
